@@ -123,7 +123,8 @@ void UtilContext::disasm(uint32_t start, uint32_t end)
 
   int data_size = 0;
 
-  uint32_t n = start;
+  // 64 bit: the last page ends at 0xffffffff and n must be able to pass it.
+  uint64_t n = start;
 
   while (n <= end)
   {
